@@ -221,6 +221,68 @@ pub enum Expr {
     },
 }
 
+impl Expr {
+    // Text of the juxtaposed forms: 4 * x -> 4x, 5 * x^2 -> 5x^2, 2 * π -> 2π, x ^ 2 -> x^2
+    fn implied_form(&self) -> Option<String> {
+        let Self::BinaryOp { op, lhs, rhs, .. } = self else {
+            return None;
+        };
+        match (op, &**lhs, &**rhs) {
+            (Operators::Mul, Self::Number(n), Self::Variable(v)) => Some(format!("{n}{v}")),
+            (Operators::Mul, Self::Number(n), Self::Constant(c)) => Some(format!("{n}{c}")),
+            (
+                Operators::Mul,
+                Self::Number(n),
+                Self::BinaryOp {
+                    op: Operators::Caret,
+                    ..
+                },
+            ) => {
+                // "2" next to "3 ^ 2" would read as 23 ^ 2
+                let power = rhs.to_string();
+                if power.starts_with(|c: char| c.is_ascii_digit() || c == '.') {
+                    None
+                } else {
+                    Some(format!("{n}{power}"))
+                }
+            }
+            (Operators::Mul, Self::Variable(v), Self::Number(n)) => Some(format!("{v}{n}")),
+            (Operators::Mul, Self::Constant(c), Self::Number(n)) => Some(format!("{c}{n}")),
+            (Operators::Caret, Self::Variable(v), Self::Number(n)) => Some(format!("{v}^{n}")),
+            (Operators::Caret, Self::Constant(c), Self::Number(n)) => Some(format!("{c}^{n}")),
+            _ => None,
+        }
+    }
+
+    // How tightly the printed text holds together, on the scale of BINDING_POW
+    fn display_power(&self) -> f64 {
+        match self {
+            Self::BinaryOp { paren: true, .. } => f64::INFINITY,
+            Self::BinaryOp { op, .. } => match (self.implied_form(), op) {
+                (Some(_), Operators::Mul) => 4.0, // juxtaposition parses as CDot
+                _ => *BINDING_POW.get(op).unwrap_or(&0.0),
+            },
+            Self::UnaryOpPrefix { .. } => 2.5, // its operand is parsed with minimum power 3
+            _ => f64::INFINITY,
+        }
+    }
+
+    // Writes `self` as an operand that must hold together at least as tightly as `needed`
+    fn fmt_operand(
+        &self,
+        f: &mut std::fmt::Formatter<'_>,
+        needed: f64,
+        strict: bool,
+    ) -> std::fmt::Result {
+        let power = self.display_power();
+        if power < needed || (strict && power == needed) {
+            write!(f, "({self})")
+        } else {
+            write!(f, "{self}")
+        }
+    }
+}
+
 impl std::fmt::Display for Expr {
     fn fmt(&self, f: &mut std::fmt::Formatter<'_>) -> std::fmt::Result {
         match self {
@@ -228,53 +290,38 @@ impl std::fmt::Display for Expr {
             Self::Variable(v) => write!(f, "{v}"),
             Self::Constant(c) => write!(f, "{c}"),
             Self::Function { func, inner } => write!(f, "{func}({inner})"),
-            Self::UnaryOpPrefix { op, value } => write!(f, "{op}{value}"),
-            Self::UnaryOpPostfix { op, value } => write!(f, "{value}{op}"),
+            Self::UnaryOpPrefix { op, value } => {
+                write!(f, "{op}")?;
+                match **value {
+                    Self::BinaryOp { .. } => value.fmt_operand(f, 3.0, false),
+                    _ => write!(f, "{value}"),
+                }
+            }
+            Self::UnaryOpPostfix { op, value } => {
+                value.fmt_operand(f, f64::INFINITY, false)?;
+                write!(f, "{op}")
+            }
             Self::BinaryOp {
                 op,
                 lhs,
                 rhs,
                 paren,
             } => {
-                // 4 * x   -> 4x
-                // 5 * x^2 -> 5x^2
-                // 2 * π   -> 2π
-                let mut implied: Option<String> = None;
-
-                if *op == Operators::Mul {
-                    implied = match (&**lhs, &**rhs) {
-                        (Self::Number(n), Self::Variable(v)) => Some(format!("{n}{v}")),
-                        (Self::Number(n), Self::Constant(c)) => Some(format!("{n}{c}")),
-                        (
-                            Self::Number(n),
-                            Self::BinaryOp {
-                                op: Operators::Caret,
-                                ..
-                            },
-                        ) => Some(format!("{n}{rhs}")),
-                        (Self::Variable(v), Self::Number(n)) => Some(format!("{v}{n}")),
-                        (Self::Constant(c), Self::Number(n)) => Some(format!("{c}{n}")),
-                        _ => None,
-                    };
-                } else if *op == Operators::Caret {
-                    implied = match (&**lhs, &**rhs) {
-                        (Self::Variable(v), Self::Number(n)) => Some(format!("{v}^{n}")),
-                        (Self::Constant(c), Self::Number(n)) => Some(format!("{c}^{n}")),
-                        _ => None,
-                    };
+                if *paren {
+                    write!(f, "(")?;
                 }
-
-                if let Some(s) = implied {
-                    if *paren {
-                        return write!(f, "({s})");
-                    }
-                    return write!(f, "{s}");
+                if let Some(s) = self.implied_form() {
+                    write!(f, "{s}")?;
+                } else {
+                    let power = *BINDING_POW.get(op).unwrap_or(&0.0);
+                    lhs.fmt_operand(f, power, false)?;
+                    write!(f, " {op} ")?;
+                    rhs.fmt_operand(f, power, true)?;
                 }
                 if *paren {
-                    write!(f, "({lhs} {op} {rhs})")
-                } else {
-                    write!(f, "{lhs} {op} {rhs}")
+                    write!(f, ")")?;
                 }
+                Ok(())
             }
         }
     }
